@@ -583,7 +583,11 @@ impl Template {
                 }
                 (Width, FirstStyle | Literal) if !buf.is_empty() => {
                     if let Some(TemplatePart::Placeholder { width, .. }) = parts.last_mut() {
-                        *width = Some(buf.parse().unwrap());
+                        match buf.parse() {
+                            Ok(w) => *width = Some(w),
+                            // the digits do not fit the width type
+                            Err(_) => return Err(TemplateError { next: c, state }),
+                        }
                         buf.clear();
                     }
                 }
